@@ -32,6 +32,10 @@ func (s *IndexStorage) SetIndex(idx *index.Index) (err error) {
 		fi, statErr := s.dir.StatIndex()
 		if statErr == nil {
 			cp := copyIndex(idx)
+			// The encoder writes no extensions: a reader of the file
+			// gets none, whatever idx still carries (e.g. the cached
+			// tree of an index that git wrote).
+			cp.Cache, cp.ResolveUndo, cp.EndOfIndexEntry = nil, nil, nil
 			cp.ModTime = fi.ModTime()
 			s.cache.Set(cp, fi.ModTime(), fi.Size())
 		} else {
